@@ -2,6 +2,7 @@ package simrt
 
 import (
 	"math"
+	"reflect"
 	"sync"
 	"syscall"
 	"unsafe"
@@ -96,6 +97,8 @@ type SchedStats struct {
 	MaxLive      int32  `json:"max_live"`
 	BlockedTimes int64  `json:"blocked_times"`
 	SemaFull     int64  `json:"sema_full"` // a Send found its channel full
+	RetryRounds  int64  `json:"retry_rounds,omitempty"`
+	Rendezvous   int64  `json:"rendezvous,omitempty"` // unbuffered channel hand-offs
 	Hash         uint64 `json:"hash"`      // FNV over (from,to,site) of every hand-over
 	Truncated    bool   `json:"decisions_truncated,omitempty"`
 	Abort        int    `json:"abort,omitempty"`
@@ -138,6 +141,15 @@ var (
 	ndec      int
 	stats     SchedStats
 
+	// channel rendezvous registry (unbuffered channels): what a blocked task waits for
+	slotWaitCh  [MaxSlots]uintptr
+	slotWaitDir [MaxSlots]int8
+	slotWaitSeq [MaxSlots]int64
+	slotCommit  [MaxSlots]bool
+	waitSeq     int64
+	// consecutive block() calls since the last event that can unblock somebody
+	sinceProgress int64
+
 	// wait-group shadow counters (fixed table, pointer keyed)
 	wgKeys [64]uintptr
 	wgCnt  [64]int64
@@ -169,7 +181,10 @@ func Start(cfg *SchedConfig) {
 	for i := range slotState {
 		slotState[i] = stFree
 		slotBegun[i] = false
+		slotWaitCh[i] = 0
+		slotCommit[i] = false
 	}
+	waitSeq, sinceProgress = 0, 0
 	hiSlot = 1
 	for i := range wgKeys {
 		wgKeys[i] = 0
@@ -608,12 +623,39 @@ func block(site int32) {
 		abort(AbortInternal) // blocking inside a no-preempt section is not supported
 	}
 	stats.BlockedTimes++
+	sinceProgress++
 	slotState[curSlot] = stBlocked
+	anyRunnable := false
+	for i := int32(0); i < hiSlot; i++ {
+		if slotState[i] == stRunnable {
+			anyRunnable = true
+			break
+		}
+	}
+	if !anyRunnable {
+		// Nothing is runnable. Before this is called a deadlock every blocked
+		// task gets to retry its operation (a wake-up source the simulator does
+		// not intercept - e.g. a channel closed by uninstrumented code - must
+		// not be reported as a deadlock): only when two full rounds of retries
+		// pass without any progress is it one.
+		if sinceProgress > 2*int64(liveTasks)+2 {
+			abort(AbortDeadlock)
+		}
+		for i := int32(0); i < hiSlot; i++ {
+			if slotState[i] == stBlocked {
+				slotState[i] = stRunnable
+			}
+		}
+		stats.RetryRounds++
+	}
 	n := choose(true, RBlock)
 	if n < 0 {
 		abort(AbortDeadlock)
 	}
 	record(n, RBlock, site)
+	if n == curSlot {
+		return // retry at once (this task was the only candidate)
+	}
 	handover(n, site, true)
 }
 
@@ -622,6 +664,7 @@ func block(site int32) {
 //
 //go:norace
 func afterSync(site int32) {
+	sinceProgress = 0
 	woke := false
 	for i := int32(0); i < hiSlot; i++ {
 		if slotState[i] == stBlocked {
@@ -718,7 +761,9 @@ func TaskEnd(slot int32) {
 		abort(AbortInternal)
 	}
 	slotState[slot] = stFree
+	slotWaitCh[slot] = 0
 	liveTasks--
+	sinceProgress = 0
 	// everything blocked may retry (e.g. a WaitGroup.Wait after our Done)
 	for i := int32(0); i < hiSlot; i++ {
 		if slotState[i] == stBlocked {
@@ -758,6 +803,68 @@ func NoPreempt(on bool) {
 //go:norace
 func noteSemaFull() { stats.SemaFull++ }
 
+const (
+	dirRecv = 1
+	dirSend = 2
+)
+
+func chanIDSend[T any](ch chan<- T) uintptr { return *(*uintptr)(unsafe.Pointer(&ch)) }
+func chanIDRecv[T any](ch <-chan T) uintptr { return *(*uintptr)(unsafe.Pointer(&ch)) }
+
+// partner finds the longest-waiting blocked task registered for the opposite
+// operation on an unbuffered channel (Go serves waiters first come first served).
+//
+//go:norace
+func partner(id uintptr, dir int8) int32 {
+	best := int32(-1)
+	for i := int32(0); i < hiSlot; i++ {
+		if slotState[i] == stBlocked && slotWaitCh[i] == id && slotWaitDir[i] == dir {
+			if best < 0 || slotWaitSeq[i] < slotWaitSeq[best] {
+				best = i
+			}
+		}
+	}
+	return best
+}
+
+// commit tells a waiting partner to perform its side of a rendezvous now. The
+// partner does exactly one real channel operation and parks again; it does not
+// get the baton.
+//
+//go:norace
+func commit(p int32) {
+	slotCommit[p] = true
+	slotWaitCh[p] = 0
+	slotState[p] = stRunnable
+	stats.Rendezvous++
+	wake(p)
+}
+
+//go:norace
+func registerWait(id uintptr, dir int8) int32 {
+	waitSeq++
+	slotWaitCh[curSlot] = id
+	slotWaitDir[curSlot] = dir
+	slotWaitSeq[curSlot] = waitSeq
+	return curSlot
+}
+
+// committed is called by a task right after it was woken: true means it was
+// woken for a rendezvous (it does not hold the baton).
+//
+//go:norace
+func committed(me int32) bool {
+	if slotCommit[me] {
+		slotCommit[me] = false
+		return true
+	}
+	slotWaitCh[me] = 0
+	return false
+}
+
+//go:norace
+func parkSelf(me int32) { park(me) }
+
 // Send replaces `ch <- v`.
 func Send[T any](ch chan<- T, v T) {
 	if !Active() {
@@ -772,28 +879,37 @@ func Send[T any](ch chan<- T, v T) {
 			return
 		default:
 		}
+		me := int32(-1)
+		if ch != nil && cap(ch) == 0 {
+			// unbuffered: nobody is ever really parked inside a channel operation
+			// under the simulator, so the hand-off is arranged here and then
+			// performed for real by both sides
+			id := chanIDSend(ch)
+			if p := partner(id, dirRecv); p >= 0 {
+				commit(p)
+				ch <- v
+				afterSync(-10)
+				return
+			}
+			me = registerWait(id, dirSend)
+		}
 		if first {
 			noteSemaFull()
 			first = false
 		}
 		block(-10)
+		if me >= 0 && committed(me) {
+			ch <- v
+			parkSelf(me) // the other side goes on; wait for the baton
+			return
+		}
 	}
 }
 
 // Recv replaces `<-ch`.
 func Recv[T any](ch <-chan T) T {
-	if !Active() {
-		return <-ch
-	}
-	for {
-		select {
-		case v := <-ch:
-			afterSync(-11)
-			return v
-		default:
-		}
-		block(-11)
-	}
+	v, _ := Recv2(ch)
+	return v
 }
 
 // Recv2 replaces `v, ok := <-ch`.
@@ -809,8 +925,63 @@ func Recv2[T any](ch <-chan T) (T, bool) {
 			return v, ok
 		default:
 		}
+		me := int32(-1)
+		if ch != nil && cap(ch) == 0 {
+			id := chanIDRecv(ch)
+			if p := partner(id, dirSend); p >= 0 {
+				commit(p)
+				v, ok := <-ch
+				afterSync(-11)
+				return v, ok
+			}
+			me = registerWait(id, dirRecv)
+		}
 		block(-11)
+		if me >= 0 && committed(me) {
+			v, ok := <-ch
+			parkSelf(me)
+			return v, ok
+		}
 	}
+}
+
+// Close replaces the builtin close: blocked receivers may retry.
+func Close[T any](ch chan<- T) {
+	close(ch)
+	if Active() {
+		afterSync(-16)
+	}
+}
+
+// ChanIter replaces the operand of `for v := range ch`.
+func ChanIter[T any](ch <-chan T) func(yield func(T) bool) {
+	return func(yield func(T) bool) {
+		for {
+			v, ok := Recv2(ch)
+			if !ok || !yield(v) {
+				return
+			}
+		}
+	}
+}
+
+// GoWrap replaces the callee of a `go` statement whose callee is not a
+// function literal: same type, same evaluation time of callee and arguments;
+// the new goroutine registers as a task before it runs the callee.
+func GoWrap[F any](t int32, f F) F {
+	if t < 0 {
+		return f
+	}
+	fv := reflect.ValueOf(f)
+	w := reflect.MakeFunc(fv.Type(), func(args []reflect.Value) []reflect.Value {
+		TaskBegin(t)
+		defer TaskEnd(t)
+		if fv.Type().IsVariadic() {
+			return fv.CallSlice(args)
+		}
+		return fv.Call(args)
+	})
+	return w.Interface().(F)
 }
 
 //go:norace
